@@ -1188,7 +1188,7 @@ where
 pub fn grid(op: XOp, tier: Tier) -> Vec<(Shape, i64, u64)> {
     let mut out = vec![];
     let ns: Vec<usize> = tier.pick(vec![8], vec![8, 16]);
-    let triples: Vec<(usize, usize, usize)> = tier.pick(vec![(12, 12, 12), (10, 12, 8), (12, 17, 12), (17, 10, 12)], vec![(12, 12, 12), (17, 17, 17), (10, 12, 8), (12, 17, 12), (17, 10, 12)]);
+    let triples: Vec<(usize, usize, usize)> = tier.pick(vec![(12, 12, 12), (10, 12, 8), (12, 17, 12), (17, 10, 12), (5, 15, 10)], vec![(12, 12, 12), (17, 17, 17), (10, 12, 8), (12, 17, 12), (17, 10, 12), (5, 15, 10), (15, 5, 10)]);
     for &n in &ns {
         let log_n = n.trailing_zeros() as usize;
         for &(b_in, b_key, b_out) in &triples {
